@@ -44,7 +44,7 @@ S9 = ["s%d" % i for i in range(9)]
 PROPERTIES = {
     "C01": {
         "level": "proof",
-        "verus_units": ["arith_widen"],
+        "verus_units": ["arith_widen", "fracops"],
         "kani": _mods("arith8", ["h_i8", "h_u8"], ["mul_overflow_all_fracs", "div_overflow_all_fracs"]),
         "explanation": "mul_overflow/div_overflow of the 8..64-bit primitives verified (Verus) against R_mul/R_div with symbolic frac_nbits; "
                        "Kani twins on the 8-bit instantiation",
@@ -52,12 +52,12 @@ PROPERTIES = {
     },
     "C02": {
         "level": "proof",
-        "verus_units": ["arith_widen", "nofrac"],
+        "verus_units": ["arith_widen", "nofrac", "fracops"],
         "kani": _mods("arith8", ["i4f4", "i0f8", "u4f4", "u0f8"], FORMS) + ["arith8::abs_forms_i8"],
         "kani_thorough": _mods("arith8", ["i8f0", "u8f0"], FORMS),
         "explanation": "neg/abs/add/sub/mul_int/div_int in the four overflow forms verified for all ten families (Verus, unit nofrac); "
                        "mul/div helpers (unit arith_widen); the mul/div forms of fixed_frac! are confirmed by Kani twins on 8-bit layouts",
-        "not_covered": ["checked_/saturating_/wrapping_/overflowing_ mul and div wrappers of fixed_frac! at widths > 8 bit are not yet under a Verus contract (their helper is)"],
+        "not_covered": ["the 128-bit mul_overflow/div_overflow helper contract is assumed in unit fracops and not yet proved (see C01)"],
     },
     "C03": {
         "level": "proof",
